@@ -35,6 +35,10 @@ CHECKS = {
    "mark_node is proved for index paths of any depth with a cut-point invariant on its while loop (init / preserved / decreases / exit): a node is left untouched or wrapped with its own class, wrapped whenever its class differs from the class inherited from the nearest marked ancestor, never when unmarked; css_class and the tag format proved for arbitrary class and element names; ExpressionMarker.generic_visit proved per node class (marks a fresh equal copy that prints like the input, once, with its own index path, children in order, input untouched). The statement about rendered classes, nesting and erasure follows by the lemma L-MARK whose induction step is discharged by z3.",
    "A1-A10; L-MARK composition is a paper argument over the print contract C01-T; sets of paths are z3 sets over integer sequences.",
    "contract-based deductive verification: loop invariant + per-class marking contract on the real code, z3 (sequences, sets, ADT option type)"),
+ "C20": ("proof", "3.C20",
+   "Per node class x parent class x zeal in {0, 1} the real LuceneCheck.check is run with the checks of sub-terms stubbed (clean / one-or-more messages): it never raises, yields strings only, leaves tree, checker, parents and module state untouched, checks every child once with the true parent chain; a node that is well formed by the spec predicate written from the statement (word without whitespace, fuzzy on a word with non-negative degree, proximity on a phrase, field name of word characters, value-like field expression, group / field group placement; with zeal also the two documented pitfalls) with clean children yields nothing; each listed ill-formed construct yields a message at its own node; a message below is propagated by operations, groups, fields, boosts and prefixes; __call__ is True iff errors() is empty. Unicode-sized regex classes are decided exactly by a derivative-based prover.",
+   "A1-A10; math.copysign modelled as 'x < 0' (negative zero not modelled); L-IND is a paper lemma; Term / BaseGroup / NoneItem are not Lucene constructs and only totality is required of them.",
+   "contract-based deductive verification: per-class acceptance / completeness / totality obligations on the real checker code with stubbed sub-term checks (z3 + exact regular-language reasoning)"),
 }
 PENDING = {
 }
@@ -64,7 +68,7 @@ def main():
         "setup_cmd": "./setup.sh",
         "hooks": {"guard": "LUQUM_VERIF", "enable": "none needed: the loader reads /repo's working tree and instruments it in memory; no source hooks exist in /repo",
                   "baseline_off_cmd": "cd /repo && /venv/bin/python -m pytest -ra -q -p no:cacheprovider",
-                  "source_commits": ["b51bf59", "eaf23e2", "9e0facc"], "add_only": True},
+                  "source_commits": ["b51bf59", "eaf23e2", "9e0facc", "370da04"], "add_only": True},
         "engines": [{"name": "symx", "path": "vfkit/", "serves_properties": sorted(CHECKS),
                      "kind_free_text": "verification-condition generator: shadow symbolic execution of the real luqum functions under CPython with z3-term proxies (AST redirects listed in every evidence file), sidecar contracts in contracts/, obligations discharged by z3 5.1 with cvc5 as second opinion; bounded stand-ins run the unmodified code natively"}],
         "checks": checks,
